@@ -10,6 +10,8 @@ CONSTANTS
   Reverse = FALSE
   CellNs = {0, 32768}
   CellRead = "unsigned"
+  FreshNs = {0, 7}
+  KeepFresh = FALSE
 INVARIANTS
   SameType
   CarriedRestored
